@@ -431,6 +431,7 @@ func TestC11_PostHandshake(t *testing.T) {
 		// recovered panics that only closed the hostile connection are a C02 matter: label only
 		if ps := e.log.LibraryPanics(); len(ps) > 0 {
 			ev.Label(c11, "recovered-panic-on-hostile-connection", 1)
+			ev.Note(c11, "recovered panic confined to a hostile connection: "+ps[len(ps)-1].Status+" @ "+clipStr(ps[len(ps)-1].Stack, 300))
 		}
 		ev.Case(c11, ev.Hash("post", fmt.Sprint(kase.Frames), lz), hostile, fmt.Sprintf("post:hostile=%v", hostile), fmt.Sprintf("post:lz4=%v", lz), fmt.Sprintf("post:tail=%d", tail))
 		if ev.WantSample(c11) {
@@ -438,4 +439,11 @@ func TestC11_PostHandshake(t *testing.T) {
 		}
 	})
 	_ = refcodec.TypeCodes
+}
+
+func clipStr(s string, n int) string {
+	if len(s) > n {
+		return s[:n]
+	}
+	return s
 }
